@@ -50,8 +50,9 @@ def call(a, b, dim, p, how, brute):
     pp = float("inf") if p == PINF else p
     # the property does not depend on the unit of length: a quarter of the calls are made on coordinates multiplied by 2^-40
     # (exact; every cost is then far below 1e-9 and still exact) and the score scaled back
-    sc = 2.0 ** -40 if (len(a) + 3 * len(b) + dim + int(sum(sum(x) for x in a))) % 4 == 0 else 1.0
-    e["scale"] = "2^-40" if sc != 1.0 else "1"
+    h_ = (len(a) + 3 * len(b) + dim + int(sum(sum(x) for x in a))) % 8
+    sc = 2.0 ** -40 if h_ in (0, 4) else (0.1 if h_ == 1 else 1.0)      # 0.1: coordinates in tenths, not exact in binary floating point
+    e["scale"] = "2^-40" if sc < 0.01 else str(sc)
     try:
         with core.quiet():
             t1, t2 = mk(a, dim, sc), mk(b, dim, sc)
